@@ -7,7 +7,7 @@ SPEC = {
     "thorough_budget_s": 900,
     "chunk": 30,
     "rule": (
-        "one case = one seeded history (initial states and operations as C01/C02) in which, at a seeded point, the table is cloned; afterwards every operation goes to a seeded one of the two twins and after EVERY operation the other twin is re-observed (serialisation, full comparison set through its own caches, number of rows reachable by an absolute XPath from it) and must be unchanged; at birth the clone must answer exactly as the original and cloning must not change the original. Interleaved are Row.clone / Cell.clone checks on live wrappers (equal at birth incl. x/y, mutate the clone -> original and table unchanged, edit the table -> clone unchanged). Document leg (half of the runs, engine D over the simulated file system): documents opened lazily from a zip path, eagerly from BytesIO, from a folder or a foreign-writer zip, with unsaved edits / set_part / del_part / add_file, are cloned (Document.clone); both twins then receive interleaved edits, saves and reopen-free histories and after every op the in-memory content of the OTHER twin (all parts through the public API) must be unchanged; the clone is also saved over the very file the original was lazily opened from; XmlPart.clone and Container.clone are checked for equality at birth and independence both ways.. distinct = distinct run digest. non-trivial = a twin exists and >= 3 operations were applied while it existed."
+        "one case = one seeded history (initial states and operations as C01/C02) in which, at a seeded point, the table is cloned; afterwards every operation goes to a seeded one of the two twins and after EVERY operation the other twin is re-observed (serialisation, full comparison set through its own caches, number of rows reachable by an absolute XPath from it) and must be unchanged; at birth the clone must answer exactly as the original and cloning must not change the original. Argument objects of set/insert/append calls are handed to the other twin through the same call (the first table holds a copy) or changed by the caller afterwards. Interleaved are Row.clone / Cell.clone checks on live wrappers and on rows handed out by rows / get_rows / traverse (the clone attached to another table, live reads of the original's table compared) (equal at birth incl. x/y, mutate the clone -> original and table unchanged, edit the table -> clone unchanged). Document leg (half of the runs, engine D over the simulated file system): documents opened lazily from a zip path, eagerly from BytesIO, from a folder or a foreign-writer zip, with unsaved edits / set_part / del_part / add_file, are cloned (Document.clone); both twins then receive interleaved edits, saves and reopen-free histories and after every op the in-memory content of the OTHER twin (all parts through the public API) must be unchanged; the clone is also saved over the very file the original was lazily opened from; XmlPart.clone and Container.clone are checked for equality at birth and independence both ways.. distinct = distinct run digest. non-trivial = a twin exists and >= 3 operations were applied while it existed."
     ),
     "assumptions": [
         "the observation of the untouched twin goes through the public read API and its serialisation; identity of private lists is never inspected",
